@@ -38,7 +38,7 @@ def in_fragment(spec):
 
 def plan(tier, seed):
     return [{"shard": i, "nshards": NSHARDS, "nmax": 5 if tier == "quick" else 6,
-             "n_random": 400 if tier == "quick" else 8000} for i in range(NSHARDS)]
+             "n_random": 400 if tier == "quick" else 8000, "n_large": 32 if tier == "quick" else 400} for i in range(NSHARDS)]
 
 
 def cases(desc):
@@ -126,9 +126,47 @@ def run_case(acc, source, spec, tags):
         acc.sample({"spec": spec, "clafer": text[:700]})
 
 
+def structural(acc, spec, source):
+    from flamapy.metamodels.fm_metamodel.transformations import ClaferWriter
+    cls = "structure:" + source
+    key = S.digest(["clafer-structure", spec])
+    acc.programs += 1
+    try:
+        text = ClaferWriter(None, S.build(spec)).transform()
+        got = clafer.structure(text)
+    except clafer.ClaferError as e:
+        acc.fail(cls, "export-parseable", "clafer", [], "unparseable", str(e)[:200], {"source": source}, key)
+        return
+    except Exception as e:  # noqa: BLE001
+        acc.fail(cls, "no-exception", "clafer", [], f"raises:{type(e).__name__}", str(e)[:200], {"source": source}, key)
+        return
+    acc.disagreements_checked += 1
+    if S.canon_tree(got["root"], ()) != S.canon_tree(spec["root"], ()):
+        acc.fail(cls, "same-tree", "clafer", [], "tree-differs",
+                 str(S.first_diff(S.canon_tree(spec["root"], ()), S.canon_tree(got["root"], ())))[:300],
+                 {"source": source, "spec": spec if len(S.feature_names(spec)) <= 60 else None, "tags": []}, key)
+    else:
+        acc.held(cls, key)
+
+
 def run_shard(desc, acc):
     for source, spec, tags in cases(desc):
         run_case(acc, source, spec, tags)
+    i, n, seed = desc["shard"], desc["nshards"], desc["seed"]
+    for j in range(desc.get("n_large", 0)):
+        if j % n == i:
+            r = rand.rng(seed, "c11large", j)
+            spec = rand.rand_model(r, r.randint(60, 200), n_ctcs=0, profile=r.choice(["mixed", "deep", "wide"]),
+                                   group_kinds=("alternative", "or", "mutex", "cardinality"), multi_rel=False)
+            if in_fragment(spec):
+                structural(acc, spec, "large-random")
+    for wi, k in enumerate((9, 10, 11, 12, 13)):
+        if wi % n == i:
+            for mn, mx in ((1, 1), (1, k), (0, 1), (2, k - 1), (k, k), (0, k), (3, 3), (0, 2)):
+                kids = [{"name": f"G{j}", "rels": []} for j in range(k)]
+                spec = {"root": {"name": "W", "rels": [{"min": mn, "max": mx, "children": kids}]}, "ctcs": []}
+                run_case(acc, "wide-group", spec, [])
+                structural(acc, spec, "wide-group")
 
 
 def replay(payload, acc):
